@@ -19,7 +19,7 @@ DRIVER = "Driver/C15.lean"
 OBLIGATIONS = ["NiftyVerif.C15." + t for t in (
     "static_eq_eager", "static_terminates", "eager_info_range", "cg_residual_invariant",
     "cg_reports_success_only_if", "nonposdef_reports_failure", "nonposdef_energy_not_above_start",
-    "first_step_steepest_descent", "spd_never_fails", "maxiter0_disagree", "driver_residual_invariant", "driver_static_eq_eager")]
+    "first_step_steepest_descent", "spd_never_fails", "normLt_encodings_exact", "maxiter0_disagree", "driver_residual_invariant", "driver_static_eq_eager")]
 RULE = ("systems = (matrix kind, dimension, pytree shape, j, x0) x stopping configuration (absdelta/resnorm/tol/atol/"
         "miniter/maxiter/_raise_nonposdef), thresholds placed between consecutive trajectory values so that convergence "
         "falls before/at/after the iteration limit; non-trivial = at least one CG iteration is executed; distinct by "
@@ -29,7 +29,7 @@ TRUSTED_BASE = [
     "hand-written model Model/CgRe.lean of _cg/_static_cg (tied by differential execution, class T)",
     "IEEE rounding, XLA, jax.lax.while_loop/cond, tree_math.Vector arithmetic: executed, not modelled",
     "harness generators/canonicalisation"]
-ASSUMPTIONS = ["norm_ord=2 only; real dtype float64; time_threshold/name (logging) not modelled; nfev not compared",
+ASSUMPTIONS = ["norm_ord in {1, 2, inf} (other orders are irrational); float64 / complex128; time_threshold/name (logging) not modelled; nfev not compared",
                "exact arithmetic in the model: rounding drift of the recurrence residual is outside the model"]
 
 XTOL = 1e-7      # class-T tolerance on x relative to (|x|_inf + 1); observed noise < 1e-12 on the generated systems
@@ -127,6 +127,8 @@ def _cfg_kwargs(case):
         if case.get(k) is not None:
             kw[k] = int(case[k])
     kw["_raise_nonposdef"] = bool(case["raise"])
+    if case.get("norm_ord") is not None:
+        kw["norm_ord"] = float("inf") if case["norm_ord"] == "inf" else int(case["norm_ord"])
     return kw
 
 
@@ -260,6 +262,7 @@ def _model_line(case, scale=None):
          "tiny": rs(6.0 * float(fin.tiny)), "eps": rs(6.0 * float(fin.eps)), "nreset": int(case.get("nreset", 20))}
     for k in ("absdelta", "resnorm", "miniter", "maxiter"):
         d[k] = case.get(k)
+    d["norm_ord"] = str(case.get("norm_ord") or 2)
     if scale is not None:
         for k in ("absdelta", "resnorm", "tol", "atol"):
             if d.get(k) is not None:
@@ -355,11 +358,12 @@ def oracle(case):
                         _mk_sig("failure_on_spd", variant=name))
             if o["info"] == 0:
                 x = np.array(o["x"])
-                res = np.linalg.norm(H @ x - j)
+                nord = {None: 2, 1: 1, "1": 1, "inf": np.inf}[case.get("norm_ord")]
+                res = np.linalg.norm(H @ x - j, ord=nord)
                 ok = False
                 resn = kw.get("resnorm")
                 if resn is None and kw.get("absdelta") is None:
-                    resn = max(kw["tol"] * np.linalg.norm(j), kw["atol"])
+                    resn = max(kw["tol"] * np.linalg.norm(j, ord=nord), kw["atol"])
                 if resn is not None and res < resn * (1 + 1e-6) + 1e-10 * np.linalg.norm(j):
                     ok = True
                 if res <= 1e-150:
@@ -456,7 +460,7 @@ def _gen_matrix(rng, n, kind):
     return M
 
 
-def _ref_traj(H, j, x0, kmax):
+def _ref_traj(H, j, x0, kmax, nord=2):
     """plain float CG (generator helper only): residual norms and energy differences per iteration"""
     H = np.array(H, dtype=float)
     j = np.array(j, dtype=float)
@@ -478,7 +482,7 @@ def _ref_traj(H, j, x0, kmax):
         r = r - a * q
         g2 = r @ r
         E2 = 0.5 * x @ H @ x - j @ x
-        norms.append(math.sqrt(g2))
+        norms.append(float(np.linalg.norm(r, ord=nord)))
         ediffs.append(E - E2)
         d = d * (g2 / g) + r
         g, E = g2, E2
@@ -518,7 +522,11 @@ def _gen_case(rng, quick):
     if isinstance(case["shape"], int) and rng.random() < 0.5:
         case["vector"] = False           # plain arrays; bare pytrees of arrays do not support arithmetic
     H_, j_, x0_ = _realified(case)
-    norms, ediffs = _ref_traj(H_, j_, x0_, max(1, n - 2))
+    nord = 2
+    if not case.get("cplx") and rng.random() < 0.3:
+        case["norm_ord"] = rng.choice([1, "inf"])      # exact on rationals; complex moduli are not
+        nord = 1 if case["norm_ord"] == 1 else np.inf
+    norms, ediffs = _ref_traj(H_, j_, x0_, max(1, n - 2), nord)
     # stopping configuration: thresholds between consecutive trajectory values
     mode = rng.choice(["resnorm", "absdelta", "both", "tol", "atol", "default"])
     k = rng.randrange(len(norms)) if norms else 0
@@ -529,7 +537,7 @@ def _gen_case(rng, quick):
         k2 = k if mode == "absdelta" else rng.randrange(len(ediffs))
         lo, hi = ediffs[k2], (ediffs[k2 - 1] if k2 > 0 else ediffs[k2] * 4)
         case["absdelta"] = rs(math.sqrt(lo * hi)) if lo > 0 and hi > 0 else rs(1e-3)
-    jn = math.sqrt(sum(v * v for v in j_)) or 1.0
+    jn = float(np.linalg.norm(np.array(j_, dtype=float), ord=nord)) or 1.0
     if norms and mode == "tol":
         lo, hi = norms[k], (norms[k - 1] if k > 0 else norms[k] * 4)
         case["tol"] = rs(math.sqrt(lo * hi) / jn) if lo > 0 else rs(1e-3)
@@ -622,6 +630,7 @@ def _check_cases(ctx, cases):
         ctx.stat("n=%d" % len(c["j"]))
         ctx.stat("nreset=%s" % c.get("nreset", 20))
         ctx.stat("complex" if c.get("cplx") else "real")
+        ctx.stat("norm_ord=%s" % (c.get("norm_ord") or 2))
         if "error" in m and "eager" not in m:
             ctx.disagree(c, None, m, "model driver rejected the case")
             continue
